@@ -2,6 +2,7 @@
 # Runs the repository's own suite (guard off) the way BASELINE.json does; prints a summary.
 cd /repo || exit 2
 unset GOFLAGS GOSUMDB
+export GOTOOLCHAIN=auto
 export GOPROXY=off
 go test -json -vet=off -count=1 -timeout 25m ./... > /tmp/repotest.json 2>/tmp/repotest.err
 rc=$?
